@@ -297,7 +297,8 @@ func (w *World) effectsPass(fn *ssa.Function, blocks map[*ssa.BasicBlock]bool, e
 				if e.merge(ce) {
 					ch = true
 				}
-				if fc := w.contracts[funcKey(callee)]; fc != nil && fc.assumable()+len(fc.Requires) > 0 {
+				if fc := w.contracts[funcKey(callee)]; fc != nil && fc.assumable()+len(fc.Requires) > 0 && !fc.Flags["inline"] {
+					// (a callee that is always inlined is never applied by contract and logs no event)
 					if !e.events {
 						e.events, ch = true, true
 					}
